@@ -669,7 +669,13 @@ class HomeKitConnection:
                 self._last_connector_error = None
                 failed_host_count = len(self._pair_verify_failed_hosts)
                 try:
-                    return await self._connect_once()
+                    try:
+                        return await self._connect_once()
+                    except BaseException:
+                        # A failed attempt must not leave its connection open, otherwise
+                        # the next attempt overwrites the transport and leaks it.
+                        self._drop_transport()
+                        raise
 
                 except AuthenticationError as ex:
                     self._last_connector_error = ex
